@@ -560,12 +560,11 @@ def c14_4_cursor(ctx, seen):
     ctx.floor(R, "std::io call sites in the decode closure", n, 6)
 
 
-def c14_5_trust(ctx, seen):
+def c14_5_trust(ctx, seen, R="C14.5"):
     """the untrusted decoder validates: in every Streamable::parse body a call to a validation-skipping primitive
     (`*_unchecked`, `*_trusted`) is dominated by the branch TRUSTED == true.  A value accepted by from_bytes() has therefore
     passed the checked primitive, which is what lets later receiver operations (Program::run's node_from_bytes(..).expect,
     point arithmetic) assume well-formedness."""
-    R = "C14.5"
     fb = ctx.fb
     n = 0
     bad = []
